@@ -3,6 +3,8 @@
 package c02
 
 import (
+	"sync"
+	"sync/atomic"
 	"fmt"
 	"math/rand"
 	"sort"
@@ -581,6 +583,60 @@ func Run(r *monitor.Run) {
 
 	// (C) TopicMatch: exhaustive over all valid (name, plain filter) pairs of the big universe
 	checkTopicMatch(r, big)
+
+	// (D) lookups are reads: any number of them may run at once (the broker's delivery path, the API and plugins
+	// all iterate) and each must see exactly what a lookup alone would see
+	concurrentLookups(r, facs[0], big)
+}
+
+func concurrentLookups(r *monitor.Run, fac Factory, u universe) {
+	rng := r.Rand("concurrent-lookups")
+	for round := 0; round < r.Pick(6, 60); round++ {
+		c := &checker{r: r, u: u, fac: fac}
+		st, cleanup, err := fac.New()
+		if err != nil {
+			r.Inconclusive(err.Error())
+			return
+		}
+		m := refmodel.NewSubTable()
+		used := map[string]bool{}
+		for _, o := range randomHistory(rng, u, 40+rng.Intn(60)) {
+			if o.Fault {
+				continue
+			}
+			c.apply(&st, m, o, used)
+		}
+		want := map[string]string{}
+		for _, name := range u.probes {
+			want[name] = refmodel.Canon(m.Matching(name, func(s refmodel.Sub) bool { return true }))
+		}
+		var wg sync.WaitGroup
+		var bad int64
+		seeds := make([]int64, 8)
+		for g := range seeds {
+			seeds[g] = rng.Int63()
+		}
+		for g := 0; g < 8; g++ {
+			wg.Add(1)
+			go func(g int) {
+				defer wg.Done()
+				lr := rand.New(rand.NewSource(seeds[g]))
+				for i := 0; i < 400; i++ {
+					name := u.probes[lr.Intn(len(u.probes))]
+					got := refmodel.Canon(collect(st, subscription.IterationOptions{Type: subscription.TypeAll, TopicName: name, MatchType: subscription.MatchFilter}))
+					if got != want[name] && atomic.AddInt64(&bad, 1) <= 2 {
+						r.Violation("lookup.concurrent:store="+fac.Name, fmt.Sprintf("one of 8 concurrent lookups for topic %q returned [%s], the store holds [%s] (nothing was modified meanwhile)", name, got, want[name]), map[string]any{"topic": name, "got": got, "want": want[name]})
+					}
+				}
+			}(g)
+		}
+		wg.Wait()
+		cleanup()
+		r.Eval(1)
+		r.Count("concurrent_lookup_rounds", 1)
+		r.Count("concurrent_lookups", 8*400)
+		r.Nontrivial(fmt.Sprintf("concurrent-lookups|%d", round))
+	}
 }
 
 func checkTopicMatch(r *monitor.Run, u universe) {
